@@ -471,6 +471,7 @@ struct Config
     std::set<std::string> exclude; // known-finding class keys excluded by construction
     std::string replay_path;
     long long limit = 0; // enumeration safety limit
+    long long shard_i = 0, shard_n = 1; // enumeration sharding
     bool verbose = false;
 };
 
